@@ -84,6 +84,10 @@ pub fn scenario(ch: &mut Chooser, thorough: bool) -> Exec {
     // the writer splits its stream and drops the read half at once (nothing unread), then
     // writes through the owned write half: a FIN from the other side must not reset anything
     let writer_drops_read_half = !try_write && !reader_sends_byte && ch.flag("writer_drops_its_read_half_first");
+    // the writer splits its stream into owned halves and puts them back together with
+    // `reunite` before writing: the reunited stream must behave like the original (bytes,
+    // half close, drop)
+    let writer_reunites = !writer_drops_read_half && delay == 0 && !reader_half_closes && ch.flag("writer_splits_and_reunites_first");
     let abortive_possible = reader_sends_byte && close == Close::Drop;
 
     let mut b = builder(1);
@@ -253,7 +257,18 @@ pub fn scenario(ch: &mut Chooser, thorough: bool) -> Exec {
             }
             return Ok(());
         }
-        let mut s = s;
+        let mut s = if writer_reunites {
+            let (r, w) = s.into_split();
+            match r.reunite(w) {
+                Ok(s) => s,
+                Err(_) => {
+                    st_w.borrow_mut().w_err = Some("reunite of two halves of one stream failed".into());
+                    return Ok(());
+                }
+            }
+        } else {
+            s
+        };
         let mut off = 0;
         for c in chunks_w {
             let data: Vec<u8> = (off..off + c).map(pat).collect();
@@ -465,7 +480,7 @@ pub fn scenario(ch: &mut Chooser, thorough: bool) -> Exec {
     if let Some(v) = violation.as_mut() {
         v.sig = format!("{}|close={:?}|cap={}|late={}", v.clause, close, cap, delay > 0);
         v.scenario = format!(
-            "tier={} cap={cap} chunks={chunks:?} try_write={try_write} close={close:?} reader={rpat:?} topo={topo:?} split={split} reader_start={delay} reader_half_closes={reader_half_closes} reader_sends_byte={reader_sends_byte} writer_drops_read_half={writer_drops_read_half}",
+            "tier={} cap={cap} chunks={chunks:?} try_write={try_write} close={close:?} reader={rpat:?} topo={topo:?} split={split} reader_start={delay} reader_half_closes={reader_half_closes} reader_sends_byte={reader_sends_byte} writer_drops_read_half={writer_drops_read_half} writer_reunites={writer_reunites}",
             if thorough { "thorough" } else { "quick" }
         );
         v.actions = obs.clone();
